@@ -519,6 +519,60 @@ def binary_check(impl, case):
     return None
 
 
+def reuse_family(ck):
+    """one backend object used for several statevector() calls, with the SAME array objects updated in place between calls
+    (identity -> non-identity and back) and with fresh arrays after the old ones were dropped: every call must still return the
+    layered Kronecker product of the matrices as they are at call time"""
+    import numpy as np, functools as ft, gc
+    from quantum_gates._simulation.backend import StandardBackend, EfficientBackend, BackendForOnes
+    rng = np.random.default_rng(ck.seed + 77)
+    fails = []
+
+    def pperm(d):
+        M = np.zeros((d, d), complex)
+        for i, j in enumerate(rng.permutation(d)):
+            M[i, j] = [1, -1, 1j, -1j][int(rng.integers(4))]
+        return M
+
+    def ref(layers, psi):
+        out = psi.astype(complex)
+        for l in layers:
+            out = ft.reduce(np.kron, l) @ out
+        return out
+
+    for B, n in ((StandardBackend, 5), (EfficientBackend, 8), (BackendForOnes, 7), (BackendForOnes, 9)):
+        be = B(n)
+        mats = [np.eye(2, dtype=complex) if k % 2 == 0 else pperm(2) for k in range(n)]     # alternating identity / non-identity
+        layers = [list(mats), [pperm(2) for _ in range(n)]]
+        psi = (rng.integers(-2, 3, 2 ** n) + 1j * rng.integers(-2, 3, 2 ** n)).astype(complex)
+        steps = []
+        steps.append("first call")
+        got = np.asarray(be.statevector(layers, psi), complex).ravel()
+        ok = np.array_equal(got, ref(layers, psi))
+        if not ok: fails.append((B.__name__, n, "first call"))
+        # in-place update of the identity arrays (same objects, new values)
+        for k in range(0, n, 2):
+            mats[k][:] = pperm(2)
+        got = np.asarray(be.statevector(layers, psi), complex).ravel()
+        ck.count("backend_reuse_inplace_update", 1, key=(B.__name__, n, "inplace"))
+        if not np.array_equal(got, ref(layers, psi)): fails.append((B.__name__, n, "second call after in-place update of matrices that were identities"))
+        # and back to identities
+        for k in range(0, n, 2):
+            mats[k][:] = np.eye(2)
+        got = np.asarray(be.statevector(layers, psi), complex).ravel()
+        ck.count("backend_reuse_inplace_update", 1, key=(B.__name__, n, "back"))
+        if not np.array_equal(got, ref(layers, psi)): fails.append((B.__name__, n, "third call after restoring identities in place"))
+        # fresh arrays at (possibly) recycled addresses
+        for rep in range(3):
+            del layers, mats; gc.collect()
+            mats = [pperm(2) if (k + rep) % 2 == 0 else np.eye(2, dtype=complex) for k in range(n)]
+            layers = [list(mats)]
+            got = np.asarray(be.statevector(layers, psi), complex).ravel()
+            ck.count("backend_reuse_fresh_arrays", 1, key=(B.__name__, n, "fresh", rep))
+            if not np.array_equal(got, ref(layers, psi)): fails.append((B.__name__, n, "call %d with freshly allocated arrays on a reused backend object" % (rep + 4)))
+    return fails
+
+
 def main(argv):
     ck = Check("C01", argv)
     ck.rule = ("a case = (backend, n, chunk setting, layer list, psi0) with Gaussian-integer matrices from {0,+-1,+-i} (row sums bounded, "
@@ -592,6 +646,12 @@ def main(argv):
             if why and (oracle_fail is None or oracle_fail[0]["n"] > case["n"]):
                 oracle_fail = (case, why, "layered")
     ck.extra["impl_wall_s"] = round(time.time() - t_impl, 1)
+    reuse_fail = reuse_family(ck)
+    ck.oblige("oracle: a reused backend object with in-place updated / freshly allocated matrices still returns the layered product", not reuse_fail)
+    if reuse_fail and not oracle_fail:
+        b, n, what = reuse_fail[0]
+        ck.report("oracle-reuse", "%s(%d): %s: result differs from the layered Kronecker product of the matrices at call time" % (b, n, what),
+                  {"backend": b, "n": n, "what": what, "how": "see reuse_family in checks/c01.py (seed %d)" % ck.seed})
     if oracle_fail:
         case, why, kind = oracle_fail
         ck.report("oracle", "%s violates the layered-product specification: %s; input %s"
